@@ -265,6 +265,11 @@ def _tests_follow(ctx, f, cfg, c, guards, ucr, pruned, sites):
 def _eval_first_iter(test, env):
     """Decide `k <op> const` tests with the loop index known to be 0."""
     from ..astutil import const_value, cmp_op_str
+    if isinstance(test, ast.Compare) and len(test.ops) == 1 and isinstance(test.comparators[0], ast.Name) and test.comparators[0].id in env and not (isinstance(test.left, ast.Name) and test.left.id in env):
+        # mirrored spelling  N <= k  ==  k >= N
+        flip = {ast.Lt: ast.Gt, ast.LtE: ast.GtE, ast.Gt: ast.Lt, ast.GtE: ast.LtE, ast.Eq: ast.Eq, ast.NotEq: ast.NotEq}.get(type(test.ops[0]))
+        if flip is not None:
+            test = ast.Compare(left=test.comparators[0], ops=[flip()], comparators=[test.left])
     if isinstance(test, ast.Compare) and len(test.ops) == 1 and isinstance(test.left, ast.Name) and test.left.id in env:
         cv = const_value(test.comparators[0])
         # validated positive integer budgets / counts: index 0 is below them
